@@ -59,7 +59,7 @@ theorem step (pre : Fsm) (hs : pre.state < 4) (e : Int) (now : Nat) (hn : now < 
       have h1 : (lookup X.sessionTable (lookup X.sessionTable pre.state (-1)).1 (-1)).1 = 1 := by
         have key : ∀ s' < 4, (lookup X.sessionTable (lookup X.sessionTable s' (-1)).1 (-1)).1 = 1 := by decide
         exact key _ hs
-      simp only [if_neg hw, h1, decide_true, Bool.true_or]
+      simp only [if_neg hw, h1, decide_true]
 
 def run (a : Fsm) : List (Int × Nat) → Fsm
   | [] => a
